@@ -55,7 +55,7 @@ var baseAssumptions = []string{
 	"sampling, not proof: a clean batch is evidence for the schedules and faults explored only",
 }
 
-const ruleCommon = "each run = one seeded simulation: (VERIF_SEED, run index) seeds a PRNG that answers every choice (workload, configuration, scheduling decision at every sync point and armed statement, pool hand-out, fault). A run is non-trivial when the scheduler moved the baton away from a task that could have continued at least once, or at least one fault fired; distinct = distinct trace hashes (hash over every scheduling decision) among non-trivial runs."
+const ruleCommon = "each run = one seeded simulation: (VERIF_SEED, run index) seeds a PRNG that answers every choice (workload, configuration, scheduling decision at every sync point and armed statement, pool hand-out, fault). A run is non-trivial when the scheduler moved the baton away from a task that could have continued at least once, or at least one fault fired; distinct = distinct case hashes (hash over every scheduling decision and every answer of the choice stream, i.e. workload, configuration and faults) among non-trivial runs."
 
 var props = map[string]propCfg{
 	"C10": {World: "diode", Level: "exploration", QuickWall: 20, ThoroughSec: 600, Rule: ruleCommon},
@@ -65,6 +65,8 @@ var props = map[string]propCfg{
 	"C13": {World: "c13", Level: "exploration", QuickWall: 15, ThoroughSec: 300, Rule: ruleCommon},
 	"C14": {World: "c14", Level: "fault_enumeration", QuickWall: 15, ThoroughSec: 300, Rule: ruleCommon + " Faults: per (destination, event) outcome in {ok, error, short write}, sampled (not enumerated) over 1-4 destinations x 1-6 events x 1-2 tasks."},
 	"C15": {World: "c15", Level: "exploration", QuickWall: 20, ThoroughSec: 600, Rule: ruleCommon},
+	"C17": {World: "c17", Tags: "binary_log", Level: "fault_enumeration", QuickWall: 25, ThoroughSec: 600, Rule: ruleCommon + " Per run: a binary log stream written by 1-3 logging tasks; every byte offset of the stream (all offsets up to 1200 bytes, else a drawn stride plus +-12 around every event boundary) is taken as crash point, then 10-40 stored-byte/reader fault combinations are applied."},
+	"C18": {World: "c18", Level: "exploration", QuickWall: 20, ThoroughSec: 600, Rule: ruleCommon},
 	"C06": {World: "c06", Level: "exploration", QuickWall: 25, ThoroughSec: 600, Rule: ruleCommon},
 }
 
@@ -273,6 +275,10 @@ type ReplayFile struct {
 	Trace    []TraceEv `json:"trace"`
 	RepoRev  string    `json:"repo_rev,omitempty"`
 	How      string    `json:"how_to_replay"`
+	// Rerun: the run killed the worker process (Go fatal error such as out of
+	// memory); it is replayed by running (seed, run) again instead of a choice list.
+	Rerun bool   `json:"rerun,omitempty"`
+	Crash string `json:"crash_output,omitempty"`
 }
 
 type knownFinding struct {
@@ -324,6 +330,33 @@ func repoRev() string {
 		r += "+dirty"
 	}
 	return r
+}
+
+type crashInfo struct {
+	run    int
+	stderr string
+}
+
+// crashedRun recognises a worker that was killed by the code under test (not
+// by the watchdog, not by a timeout) and returns the run it had announced.
+func crashedRun(r workerResult) (int, bool) {
+	if r.err != nil || r.code == 0 || r.code == 3 || strings.Contains(r.stderr, "watchdog") {
+		return 0, false
+	}
+	const tag = "last announced: RUN "
+	i := strings.Index(r.stderr, tag)
+	if i < 0 {
+		return 0, false
+	}
+	rest := r.stderr[i+len(tag):]
+	if j := strings.IndexByte(rest, '\n'); j >= 0 {
+		rest = rest[:j]
+	}
+	n, err := strconv.Atoi(strings.TrimSpace(rest))
+	if err != nil {
+		return 0, false
+	}
+	return n, true
 }
 
 type workerResult struct {
@@ -523,11 +556,17 @@ func check(id, tier string, workers int, wallOverride float64) int {
 	// aggregate
 	agg := Stats{Strategies: map[string]int{}, Faults: map[string]int{}, Probes: map[string]int{}, SitesHit: map[string]int{}, SitesTotal: map[string]int{}}
 	var viols []ViolationRec
+	var crashes []crashInfo
 	findingClause := map[string]bool{}
 	var realC, stubC []string
 	infra := false
 	for i, r := range results {
 		if r.err != nil || r.out == nil || (r.code != 0 && r.code != 3) {
+			if run, ok := crashedRun(r); ok {
+				crashes = append(crashes, crashInfo{run, r.stderr})
+				fmt.Fprintf(os.Stderr, "vcheck: worker %d died during run %d; will try to reproduce\n", i, run)
+				continue
+			}
 			fmt.Fprintf(os.Stderr, "vcheck: worker %d failed (exit %d, %v)\n%s\n", i, r.code, r.err, r.stderr)
 			infra = true
 			continue
@@ -635,6 +674,38 @@ func check(id, tier string, workers int, wallOverride float64) int {
 		}
 		fmt.Printf("VIOLATION property=%s replay=%s\n", id, path)
 	}
+	for _, c := range crashes {
+		// a run that kills the process (Go fatal errors cannot be recovered) is
+		// reproduced twice in fresh processes before it is reported
+		died := 0
+		var tailOut string
+		for k := 0; k < 2; k++ {
+			_, se, code, err := runWorker(worker, []string{"-world", cfg.World, "-prop", id, "-seed", strconv.FormatUint(seed, 10), "-from", strconv.Itoa(c.run), "-to", strconv.Itoa(c.run + 1), "-wall", "600"}, 400*time.Second)
+			if err == nil && code != 0 && code != 3 && !strings.Contains(se, "watchdog") {
+				died++
+				tailOut = se
+			}
+		}
+		if died < 2 {
+			fmt.Fprintf(os.Stderr, "vcheck: the worker death during run %d did not reproduce (%d of 2); treating it as infrastructure trouble\n%s\n", c.run, died, c.stderr)
+			infra = true
+			continue
+		}
+		lines := strings.Split(tailOut, "\n")
+		if len(lines) > 40 {
+			lines = lines[:40]
+		}
+		rf := ReplayFile{Property: id, World: cfg.World, Seed: seed, Run: c.run, Clause: "process_crash", Msg: "the run kills the process (unrecoverable Go runtime error)", Rerun: true, Crash: strings.Join(lines, "\n"), RepoRev: repoRev(),
+			How: "cd /verif && bin/vcheck replay <this file>   (rebuilds from /repo's working tree and runs (seed, run) again; exit 1 = the process dies again)"}
+		os.MkdirAll(filepath.Join(verifDir, "replays"), 0o755)
+		path := filepath.Join(verifDir, "replays", fmt.Sprintf("%s-%d-%d.json", id, seed, c.run))
+		b, _ := json.MarshalIndent(rf, "", " ")
+		os.WriteFile(path, b, 0o644)
+		nviol++
+		exit = 1
+		fmt.Printf("violation: clause=process_crash run=%d: the code under test killed the process:\n  %s\n", c.run, strings.Join(lines[:min(len(lines), 6)], "\n  "))
+		fmt.Printf("VIOLATION property=%s replay=%s\n", id, path)
+	}
 	sort.Strings(knownLines)
 	prev := ""
 	for _, l := range knownLines {
@@ -678,6 +749,8 @@ var wantProbes = map[string][]string{
 	"C13": {"linearizable_histories", "clock_backwards", "clock_jump_forward", "clock_frozen", "sampling_disabled_phase", "level_rejected_event"},
 	"C14": {"dst_error", "dst_short_write"},
 	"C15": {"linearizable_histories", "mutex_contended", "pool_reuse", "dst_blocks"},
+	"C17": {"crash_point", "bit_flip", "header_overwrite", "huge_length", "zeroed_range", "dropped_range", "duplicated_tail", "garbage_tail", "read_error"},
+	"C18": {"rw_short_write", "rw_error", "pool_reuse_other_task"},
 	"C06": {"pool_reuse_other_task", "pool_miss", "pool_drop", "sink_overlap", "two_events_open", "sink_blocks_in_write", "sink_error", "global_level_flip", "mutex_contended"},
 }
 
@@ -748,6 +821,26 @@ func doReplay(file string) int {
 	}
 	abs, _ := filepath.Abs(file)
 	_, worker := prepare(rf.Property, cfg.Tags, false)
+	if rf.Rerun {
+		so, se, code, err := runWorker(worker, []string{"-world", rf.World, "-prop", rf.Property, "-seed", strconv.FormatUint(rf.Seed, 10), "-from", strconv.Itoa(rf.Run), "-to", strconv.Itoa(rf.Run + 1), "-wall", "600"}, 400*time.Second)
+		if err == nil && code != 0 && code != 3 && !strings.Contains(se, "watchdog") {
+			fmt.Printf("replay: the process died again:\n%s\n", se)
+			fmt.Printf("VIOLATION property=%s replay=%s\n", rf.Property, abs)
+			return 1
+		}
+		var o Output
+		if json.Unmarshal(so, &o) == nil && len(o.Violations) > 0 {
+			fmt.Printf("replay: the run no longer kills the process but violates %s: %s\n", o.Violations[0].Clause, o.Violations[0].Msg)
+			fmt.Printf("VIOLATION property=%s replay=%s\n", rf.Property, abs)
+			return 1
+		}
+		if err != nil || code != 0 {
+			fmt.Fprintf(os.Stderr, "replay: worker trouble (exit %d, %v)\n%s\n", code, err, se)
+			return 2
+		}
+		fmt.Printf("replay: run %d completes without violation on the current tree\n", rf.Run)
+		return 0
+	}
 	so, se, code, err := runWorker(worker, []string{"-world", rf.World, "-prop", rf.Property, "-replay", abs}, 300*time.Second)
 	if err != nil {
 		fatal2("replay worker: %v\n%s", err, se)
